@@ -28,6 +28,14 @@ theorem fresh_state :
     maskOf freshRoots = maskWhere fns (fun f => f.tag == .contextNew || f.tag == .metricsNew) ∧
     freshExternal.all pureExternal = true := by decide +kernel
 
+/-- Lower bounds (a translator that silently skips files or functions cannot make `statics` /
+`fresh_state` vacuous): the `static` scan visited at least 15 source files with at least 100
+top-level items, the expanded crate's scan met the `tracing` call-site records, and the two
+constructors call at least 3 external functions through at least 2 crate functions. -/
+theorem required_scan_coverage :
+    rawFilesScanned ≥ 15 ∧ rawItemsScanned ≥ 100 ∧ expandedStatics.length ≥ 1 ∧
+    freshExternal.length ≥ 3 ∧ freshFns.length ≥ 2 ∧ fns.length ≥ 300 := by decide +kernel
+
 /-- Non-vacuity: the allow-list rejects global-state APIs. -/
 example : pureExternal "std::thread::current" = false ∧ pureExternal "std::env::var" = false ∧
     pureExternal "core::cell::Cell::new" = true := by decide +kernel
